@@ -50,11 +50,11 @@ class Template:
         os.makedirs(self.tmpl)
         w = World(frontend="wsgi", prefix="/", root=os.path.join(self.tmpl, "data"))
         try:
-            assert w.request("MKCALENDAR", "/cal/").status == 201
+            assert w.request("MKCALENDAR", "/cal/").status in range(200, 300)
             assert w.request("PUT", "/cal/a.ics", [("Content-Type", "text/calendar")],
-                             gamma.ics_event("inside-1", "inside")).status == 201
+                             gamma.ics_event("inside-1", "inside")).status in range(200, 300)
             assert w.request("PUT", "/cal/b.ics", [("Content-Type", "text/calendar")],
-                             gamma.ics_event("inside-2", "inside two")).status == 201
+                             gamma.ics_event("inside-2", "inside two")).status in range(200, 300)
         finally:
             w.stop()
         out = os.path.join(self.tmpl, "outside")
